@@ -17,7 +17,8 @@ RULE = ("random small feasible instances of SetCover (weighted/unweighted, int a
         "AlternatingSectorsChain (pbc both ways); weights just above the documented threshold, far above, and default "
         "where the statement covers it; formulation size <= 18 variables. Non-trivial = instance with >= 2 feasible and "
         ">= 1 infeasible decoded solutions; distinct = digest of (class, instance, weights)")
-TIERS = {"quick": {"shards": 8, "cases": 100}, "thorough": {"shards": 16, "cases": 1000}}
+TIERS = {"quick": {"shards": 8, "cases": 300}, "thorough": {"shards": 16, "cases": 5000}}
+FLOOR_BASE = {"quick": 60, "thorough": 1000}    # case counts the floors below were calibrated for; the launcher scales them
 CLASSES = ["SetCover", "VertexCover", "BILP", "JobSequencing", "GraphPartitioning", "NumberPartitioning", "AlternatingSectorsChain"]
 
 
